@@ -4,4 +4,5 @@ From Rc Require Import RcModel RcSpec RcConc.
 Extraction Language OCaml.
 Extraction "model.ml" anchor init step step_as_written step_obs destroy_all live_blocks total_dtors
   sinit spec_step reachable must_be_destroyed
-  cinit cstep run_sched finishedb final_values live_cblocks total_cfrees handles_total steps_bound.
+  cinit cstep run_sched finishedb final_values live_cblocks total_cfrees handles_total steps_bound
+  next_action accept replay finish push slen.
